@@ -105,6 +105,14 @@ class Normaliser:
             elif isinstance(s, ast.Assign) and len(s.targets) == 1 and isinstance(s.targets[0], ast.Name) and isinstance(s.value, ast.Call):
                 self.instances[s.targets[0].id] = s.value
 
+    def _private_call_resolver(self, call: ast.Call):
+        """Private module-level helpers that are *called* to build an argument (not handed to
+        partial()) are replaced by their single returned expression."""
+        f = call.func
+        if isinstance(f, ast.Name) and f.id.startswith("_") and f.id in self.funcs:
+            return self.funcs[f.id], False
+        return None
+
     # -- partial(f, *pos, **kw) -> canonical body
     def partial_form(self, call: ast.Call) -> str:
         if not call.args:
@@ -214,25 +222,17 @@ class Normaliser:
                 if isinstance(s, ast.FunctionDef):
                     inner[s.name] = s
             amap_h = astu.single_assign_map(f)
-            for s in astu.walk_no_nested(f):
-                if isinstance(s, ast.Return) and isinstance(s.value, ast.Call) and ast.unparse(s.value.func) == "PipelineStep" and s.value.args:
-                    a0 = s.value.args[0]
-                    if isinstance(a0, ast.Name) and a0.id in amap_h and a0.id not in inner:
-                        a0 = astu.expand_locals(a0, amap_h)
-                    if isinstance(a0, ast.Name) and a0.id in inner:
-                        g = inner[a0.id]
-                        if any(ast.unparse(d) == "pipeline_step" for d in g.decorator_list):
-                            ps = [a.arg for a in g.args.args]
-                            defaults = dict(zip(ps[len(ps) - len(g.args.defaults):], g.args.defaults))
-                            mapping = {ps[0]: ast.Name(id="INPUT", ctx=ast.Load())}
-                            for k, v in defaults.items():
-                                mapping[k] = ast.Name(id=f"⟨{_arg_form(v)}⟩", ctx=ast.Load())
-                            env = {ps[0]: Sym("INPUT")}
-                            for k, v in defaults.items():
-                                env[k] = Sym(f"⟨{_arg_form(v)}⟩")
-                            return "step " + " | ".join(outcomes(self.run.repo, self.mod, g, env))
-                    return self.step_form(a0)
-            return None
+            rets_ = sorted((s for s in astu.walk_no_nested(f) if isinstance(s, ast.Return) and s.value is not None), key=lambda s: (s.lineno, s.col_offset))
+            forms_ = []
+            for s in rets_:
+                forms_.append(self._return_form(f, s, inner, amap_h))
+            forms_ = [x for x in forms_ if x is not None]
+            uniq_ = []
+            for x in forms_:
+                if x not in uniq_:
+                    uniq_.append(x)
+            # every way the helper can return must compute the same step
+            return " || ".join(uniq_) if uniq_ else None
         if name in self.instances:
             v = self.instances[name]
             if ast.unparse(v.func) == "PipelineStep" and v.args:
@@ -240,6 +240,28 @@ class Normaliser:
             if isinstance(v.func, ast.Name) and v.func.id in self.funcs:
                 return f"{v.func.id}({', '.join(ast.unparse(a) for a in v.args)})"
         return None
+
+    def _return_form(self, f, s, inner, amap_h) -> Optional[str]:
+        """Canonical form of one ``return PipelineStep(<callable>, …)`` of a helper."""
+        v_ = s.value
+        if not (isinstance(v_, ast.Call) and ast.unparse(v_.func) == "PipelineStep" and v_.args):
+            v_ = astu.expand_locals(v_, amap_h)
+            if not (isinstance(v_, ast.Call) and ast.unparse(v_.func) == "PipelineStep" and v_.args):
+                return None
+        a0 = v_.args[0]
+        if isinstance(a0, ast.Name) and a0.id in amap_h and a0.id not in inner:
+            a0 = astu.expand_locals(a0, amap_h)
+        a0 = astu.inline_helpers(a0, self._private_call_resolver)
+        if isinstance(a0, ast.Name) and a0.id in inner:
+            g = inner[a0.id]
+            if any(ast.unparse(d) == "pipeline_step" for d in g.decorator_list):
+                ps = [a.arg for a in g.args.args]
+                defaults = dict(zip(ps[len(ps) - len(g.args.defaults):], g.args.defaults))
+                env = {ps[0]: Sym("INPUT")}
+                for k, v in defaults.items():
+                    env[k] = Sym(f"⟨{_arg_form(v)}⟩")
+                return "step " + " | ".join(outcomes(self.run.repo, self.mod, g, env))
+        return self.step_form(a0)
 
 
 # canonical forms confirmed against each helper's docstring (INPUT = the value
@@ -487,12 +509,41 @@ def rule_PI(run: Run) -> RuleResult:
     pa = repo.cls("PartialApplication")
     lf = pa.methods.get("lift")
     ok = False
+    why = "PartialApplication.lift not found"
     if lf is not None:
-        t = ast.unparse(lf)
-        amap_l = astu.single_assign_map(lf)
-        rets = [astu.expand_locals(r.value, {k: v for k, v in amap_l.items() if not isinstance(v, (ast.Dict, ast.DictComp))}) for r in astu.walk_no_nested(lf) if isinstance(r, ast.Return) and r.value is not None]
-        final = [r for r in rets if isinstance(r, ast.Call) and astu.short_name(r) == "PartialApplication"]
-        ok = len(final) == 1 and any(k.arg is None for k in final[0].keywords) and final[0].args and "func" in ast.unparse(final[0].args[0]) \
-            and "Evaluatable.ensure(default)" in t and "default is not param.empty" in t and "kwargs.get(param.name, param.default)" in t
-    res.add("labrea.application.PartialApplication.lift:defaulted parameters evaluated from options", ok, pa.module.relpath, lf.lineno if lf else 0, "", nec)
+        from .facts import cond_pol
+        from .interp import Frame, analyse_function
+        lps = [p for p in analyse_function(Ctx(repo), pa.module, lf) if p.status == "ret"]
+        fparam = [a_.arg for a_ in lf.args.posonlyargs + lf.args.args if a_.arg not in ("cls", "self")][0]
+        direct = [p for p in lps if cond_pol(p.conds, f"cmp:Is({fparam},Const(None))") is False]
+        ok, why = bool(direct), "" if direct else "no path lifts a given function"
+        saw_kept = saw_dropped = False
+        for p in direct:
+            r_ = p.ret
+            if not (isinstance(r_, New) and r_.cls.name == "PartialApplication" and r_.attrs.get("func") is not None and fparam in r_.attrs["func"].key()):
+                ok, why = False, f"returns {r_.key()[:80]}"
+                continue
+            gets = [e for e in p.events if e.kind == "call" and e.text.endswith("kwargs.get")]
+            # comprehension filters hold for every element that was kept
+            at = Frame.atoms(list(p.conds) + [(e.text, True, e.target.key()) for e in p.events if e.kind == "filter" and e.target is not None])
+            for e in gets:
+                if len(e.args) != 2 or not (e.args[0].key().startswith("attr:name(") and e.args[1].key() == "attr:default(" + e.args[0].key()[len("attr:name("):]):
+                    ok, why = False, f"default looked up as kwargs.get({', '.join(a_.key()[:40] for a_ in e.args)})"
+            kw_ = r_.attrs.get("arguments")
+            kk = kw_.key() if kw_ is not None else ""
+            looked = "kwargs.get()" in kk
+            empties = [v for k_, v in at.items() if k_.startswith("cmp:Is(") and "kwargs.get()" in k_ and "attr:empty(" in k_]
+            if looked:
+                saw_kept = True
+                if not empties or any(v is True for v in empties):
+                    ok, why = False, "a parameter without a default is turned into an evaluated keyword"
+            elif gets and empties and all(v is False for v in empties):
+                ok, why = False, "a defaulted parameter is not evaluated from the options"
+            elif gets and empties:
+                saw_dropped = True
+            if any(e.kind == "filter" and e.target is not None and "attr:empty(" in e.target.key() and "kwargs.get()" in e.target.key() for e in p.events):
+                saw_dropped = True      # a comprehension filter drops the parameters without default
+        if ok and not (saw_kept and saw_dropped):
+            ok, why = False, f"defaulted parameter kept on some path: {saw_kept}; parameter without default left open on some path: {saw_dropped}"
+    res.add("labrea.application.PartialApplication.lift:defaulted parameters evaluated from options", ok, pa.module.relpath, lf.lineno if lf else 0, why, nec)
     return res
